@@ -195,6 +195,10 @@ def _make_elab(idx):
             return collections.deque(realize(n) for n in e[1])
         if k == "self":
             return next_inner
+        if k == "self_list":
+            return [next_inner]
+        if k == "self_tuple":
+            return (next_inner,)
         raise AssertionError(k)
     return hook
 
